@@ -21,6 +21,8 @@ CHECKS = {
  "C13": dict(cat="model_checking", ref="5.13", engine="gomc-seq", tech="exhaustive small-scope enumeration of codec inputs (all byte strings up to a length, structured mutations, every registry name) on the real codec, plus scheduled end-to-end runs",
    text="Round trip of every registered method x direction x message value x metadata (all status codes) through the real Codec; decoding of every byte string of length <= 2 (3 thorough) in both directions and of every prefix / byte substitution / length-prefix perturbation / part swap of valid frames, with every full name of the linked protobuf registry (all descriptor kinds) in the method field; end-to-end under the scheduler: every status code from a handler reaches RPC and quorum-call callers unchanged, and hostile frames injected into live client and server streams never panic a library thread.",
    note="Trusted base: enumerator in /verif/checks/c13.go; registry = what is linked into the harness (gorums, ordering, dev/zorums, well-known types, grpc status); end-to-end part uses the fakegrpc transport, which runs the real codec on every frame."),
+ "C11": dict(cat="model_checking", ref="5.11", tech="stateless model checking of the real code: exhaustive event-history enumeration with observers after every event, compared with a reference model of the published (value, level, done) state; deviation-bounded schedule enumeration inside each event",
+   text="Every history (replies, repeated stream replies, handler errors, stream ends, cancel, in every order, continuing after completion) of one correctable call over 4 (8 thorough) generated variants, n<=2, 5 level tables x done positions is executed on the instrumented library; after every event the script calls typed and raw Get, Done and 4 old + 4 new Watch levels and compares with the reference model (pointer identity of the published value, monotone levels, completion exactly when the model says, nothing changes afterwards, typed accessors never panic)."),
 }
 
 NOT_YET = {}
